@@ -113,7 +113,15 @@ def first_diff(a, b, path='$'):
         return None
     if isinstance(a, tuple) and isinstance(b, tuple):
         if len(a) != len(b):
-            return '%s: length %d != %d' % (path, len(a), len(b))
+            def kind(x):
+                return x[0] if isinstance(x, N) else type(x).__name__
+            i = 0
+            while i < min(len(a), len(b)) and a[i] == b[i]:
+                i += 1
+            ka = kind(a[i]) if i < len(a) else 'END'
+            kb = kind(b[i]) if i < len(b) else 'END'
+            return '%s: length %d != %d first=%s/%s' % (
+                path, len(a), len(b), ka, kb)
         for i, (x, y) in enumerate(zip(a, b)):
             d = first_diff(x, y, '%s[%d]' % (path, i))
             if d:
